@@ -601,6 +601,7 @@ def check_c09(tier, t0):
     progs = [(n, s) for n, s, _ in CL.pick(CL.all_progs(), tier, 40)] + list(corpus.family("term")) + edge_programs()
     progs += [(n, s) for n, s, _ in CL.names_family()] + CL.strings_family()
     progs += corpus.repo_programs(REPO)
+    progs += [(n, s) for n, s, _ in CL.big_programs()]      # at the register limit: rejected, or emitted within r0..r15
     progs += wrapper_sweep()
     progs += [("nf_bool_operand", corpus._loop("ka = 1 < 2\nd0.Setting = ka\nkb = not 0\nd1.Setting = kb\nd2.Setting = (3 == 3) + d0.On")),
               ("nf_inlined_float_arg", corpus.HEADER + "def fa(xa):\n    return xa * 2\ndef fb(xa, xb):\n    d2.Setting = xa + xb\nwhile True:\n    d0.Setting = fa(0.00001)\n    fb(1e-7, 123456789.5)\n    yield_()\n"),
